@@ -55,6 +55,9 @@ class ModelsMixin(object):
 
     # ================================================================ arithmetic
     def binop(self, op, a, b, inplace=False):
+        from .extmodels import SExt, ext_binop
+        if isinstance(a, SExt) or isinstance(b, SExt):
+            return ext_binop(self, op, a, b)
         if isinstance(a, SObj) or isinstance(b, SObj):
             return self.binop_obj(op, a, b)
         if not is_sym(a) and not is_sym(b):
@@ -689,6 +692,9 @@ class ModelsMixin(object):
 
     # ================================================================ formatting
     def to_str(self, v):
+        from .extmodels import SExt, ext_str
+        if isinstance(v, SExt):
+            return ext_str(self, v)
         if isinstance(v, SStr):
             return v
         if isinstance(v, SInt):
